@@ -17,6 +17,7 @@ int main(int argc, char** argv) {
         if (r.chance(0.5)) s.shifty = r.uni(-3, 3);
         double d = s.pqsize / (s.n - 1);
         s.e1 = std::min(r.logu(1e-4, 1e-2), 0.25 * d * d);
+        if (c % 5 == 4) s.e1 = r.uni(0.3, 0.45) * d * d;     // upper part of the stable range
         double sy = r.uni(0.5, 0.95), my = r.uni(-0.3, 0.3);   // >= 5.5 sigma from the border rows, which the map zeroes
         M.begin_case(c, s.descr());
         vh::set_grid(s.n, 1);
